@@ -175,6 +175,12 @@ Proof.
   destruct (fut_done (fut_of (set_caller w c CTimedOut) c)); exact I.
 Qed.
 
+Lemma caller_cancel_slot f0 w c : Slot f0 w -> Rsat (Slot f0) (caller_cancel w c).
+Proof.
+  intros I. unfold caller_cancel. destruct (aget CNone c (callers w)); try exact I.
+  destruct (fut_done (fut_of (set_caller w c CCancelled) c)); exact I.
+Qed.
+
 Lemma caller_wake_slot f0 w c : Slot f0 w -> Rsat (Slot f0) (caller_wake w c).
 Proof.
   intros I. unfold caller_wake. destruct (aget CNone c (callers w)); try exact I.
@@ -191,7 +197,8 @@ Proof. intros I. unfold conn_made, conn_lost. split; destruct (state (cx w)); tr
 
 Lemma do_write_slot f0 w n c : Slot f0 w -> Rsat (Slot f0) (do_write cmds plan w n c).
 Proof.
-  intros I. unfold do_write. destruct (w_fail (plan n)); [apply set_state_slot, I|].
+  intros I. unfold do_write. destruct (w_fail (plan n)).
+  { unfold fail_write. destruct (cur (cx w)) as [k|]; [|exact I]. destruct (Nat.eqb k c); [|exact I]. apply set_state_slot, I. }
   cbn. destruct (w_echo (plan n)); destruct (w_rply (plan n)); destruct (rx_hdr (cmds c)); exact I.
 Qed.
 
@@ -207,10 +214,10 @@ Proof.
   - unfold writer_start. destruct (w_lat (plan (nwrites w)) <=? 0); [apply do_write_slot, I|exact I].
   - exact I.
   - apply do_write_slot, I.
-  - apply caller_start_slot, I.
+  - destruct (aget CNone c (callers w)); try exact I. apply caller_start_slot, I.
   - apply caller_timer_slot, I.
   - apply caller_wake_slot, I.
-  - destruct e as [k|p| | |d]; [exact I|apply pkt_rcvd_slot, I|apply conn_slot, I|apply conn_slot, I|exact I].
+  - destruct e as [k|p| | |d|k]; [exact I|apply pkt_rcvd_slot, I|apply conn_slot, I|apply conn_slot, I|exact I|apply caller_cancel_slot, I].
 Qed.
 
 Lemma cb_dec (c : cb) : {c = CbCheckBuf} + {c <> CbCheckBuf}.
